@@ -293,7 +293,8 @@ def tripleOK (timex : Str) (start stop : Option Str) : Bool :=
             (match ptSeconds (rest.length + 4) rest, diffSeconds pa pb with
              | some (n, d), some secs => rest ≠ [] ∧ secs * d = (n : Int)
              | some _, none => false
-             | none, _ => true)          -- not a definite duration (`PTXH`): nothing demanded
+             | none, _ => rest.contains 88)   -- `PTXH` (an open amount, written with X): nothing demanded; anything else
+                                              -- that does not read as H/M/S components (`PT2H-1M35S`) is malformed
           | _ =>
             match parseDuration p, diffSeconds pa pb with
             | some ((n, den), u), some secs =>
